@@ -68,6 +68,7 @@ func c13RenderCompiled(src string) (out string, err error) {
 // C13: a template with dashes against its dash-free, hand-trimmed counterpart (computed by the
 // verified strip_dashes): same output, same parse verdict; token streams against the model.
 func runC13(cases string, res *Result) {
+	c13DashesOnTemplatesThatAreNotWellFormed(res)
 	readCases(cases, func(c Case) {
 		src := c.hexs("src")
 		stripped := c.hexs("stripped")
